@@ -316,6 +316,7 @@ Elem(m0, name) ==      \* m0: the element item already removed from ctl
            IN IF IsL(p[1]) /\ m0.cfg.tflag
               THEN Push(p[2], VI(IF \E k \in 1..Len(p[1].l) : PyTruthy(p[1].l[k]) THEN 1 ELSE 0))
               ELSE IF IsF(p[1]) THEN Push(p[2], VI(1))
+              ELSE IF IsS(p[1]) THEN Push(p[2], VI(IF p[1].s # <<>> THEN 1 ELSE 0))
               ELSE PushRes(p[2], Mo("bool", p[1]))
       [] name \in DyadKeys ->
            LET p == PopN(m0, 2) IN PushRes(p[2], Dyad(name, p[1][2], p[1][1]))
@@ -352,6 +353,7 @@ Elem(m0, name) ==      \* m0: the element item already removed from ctl
            LET p == Pop1(m0)
            IN IF IsF(p[1]) THEN CallFromStack(p[2], p[1], <<[k |-> "k_push"]>>)
               ELSE IF IsL(p[1]) THEN PushRes(p[2], Mo("not", p[1]))
+              ELSE IF IsS(p[1]) THEN Undef(m0, "call-of-string")
               ELSE IF IsI(p[1]) /\ Abs(p[1].i) <= 1000000 THEN Push(p[2], VI(DistinctPF(Abs(p[1].i), 2)))
               ELSE Undef(m0, "call-of-big-number")
       [] name = "reduce" /\ ~(Len(Stk(m0)) > 1 /\ (IsF(Last(Stk(m0))) \/ IsF(Stk(m0)[Len(Stk(m0)) - 1]))) ->
@@ -525,11 +527,18 @@ ModStep(m0, n) ==
 IfRun(m0, br, i) ==         \* the condition for body br[i] has just been popped: `c`
     m0
 
+PlainText(s) == \A k \in 1..Len(s) : s[k] \in (32..126) \ {92, 96}
+
 NodeStep(m0, n) ==
     CASE n.t \in {"gen", "tok"} ->
            CASE n.tok.k = "number" ->
                   IF AllDigits(n.tok.v) /\ Len(n.tok.v) <= 8 THEN Push(m0, VI(ToNat(n.tok.v)))
                   ELSE Undef(m0, "non-integer-literal")
+             \* a back-quoted or two-character string of plain ASCII (nothing dictionary compression or the
+             \* Python literal escaping would rewrite) denotes its text; an escaped character likewise
+             [] n.tok.k = "string" -> IF PlainText(n.tok.v) THEN Push(m0, VS(n.tok.v)) ELSE Undef(m0, "string-outside-core")
+             [] n.tok.k = "character" -> IF \A k \in 1..Len(n.tok.v) : n.tok.v[k] \in 32..126
+                                         THEN Push(m0, VS(n.tok.v)) ELSE Undef(m0, "string-outside-core")
              [] n.tok.k = "general" -> Elem(m0, ElemName(n.tok.v))
              [] n.tok.k = "variable_get" ->
                   LET v == GetVar(m0, n.tok.v)
@@ -544,10 +553,13 @@ NodeStep(m0, n) ==
            IN PushCtl(p[2], <<[k |-> "ifsel", br |-> n.br, i |-> 1, c |-> p[1]]>>)       \* IfNoContext
       [] n.t = "for" ->
            LET p == Pop1(m0)
-           IN IF ~IterOK(p[2], p[1]) THEN Undef(m0, "iterable")
+           IN IF ~IterOK(p[2], p[1]) /\ ~IsS(p[1]) THEN Undef(m0, "iterable")
               ELSE PushCtl(p[2], <<[k |-> "for", named |-> n.names # <<>>,
                                     var |-> IF n.names # <<>> THEN n.names[1] ELSE <<>>,
-                                    rest |-> IterRange(p[2], p[1]), body |-> n.body]>>)
+                                    \* a for loop over a string visits its characters
+                                    rest |-> IF IsS(p[1]) THEN [k \in 1..Len(p[1].s) |-> VS(<<p[1].s[k]>>)]
+                                             ELSE IterRange(p[2], p[1]),
+                                    body |-> n.body]>>)
       [] n.t = "while" -> PushCtl(m0, Nodes(n.cond) \o <<[k |-> "whiletest", cond |-> n.cond, body |-> n.body]>>)
       [] n.t = "fndef" ->
            IF Top(m0).kind # "module" THEN Undef(m0, "nested-function-definition")
